@@ -9,6 +9,7 @@ Not decided: behaviour exactly at the 60 s instant; multi-session interleavings.
 import re
 
 from iosa import ir, guard
+from iosa.facts import AnalysisBroken
 from iosa.ir import sk, pp, cval, apath, walk
 from . import common as C
 from . import c03
@@ -254,6 +255,32 @@ def run(P, chk, tier):
             chk.site(r6, f, ir.loc(node), "write users[%s].%s" % (xk, fld), not bad,
                      "address rebound outside slot hand-out and raw login" if bad else "fresh slot or digest matched",
                      witness={"facts_on_a_failing_path": C.fmt_d(bad[0], 30)} if bad else None)
+
+    # ------------------------------------------------------------------ R8
+    r8 = chk.rule("C04.R8", "who may free or occupy a slot",
+                  "users[x].active is cleared only before serving starts (init_users) or for an x whose authenticated guard "
+                  "passed, and set only by the allocator under the take-over condition (R5): otherwise the `unused` half of the "
+                  "take-over condition says nothing", "E1 + E6", floor=2)
+    nw = 0
+    for f in P.funcs(SU):
+        for node, xexpr, xk, fld, val, kind in C.users_write_sites(P, f, ()):
+            if fld != "active":
+                continue
+            nw += 1
+            v = cval(sk(val)) if val is not None else None
+            ds = E.analysis(f).before_node(node["n"]) or []
+            if f.name == "init_users":
+                ok, why = v == 0, "initialisation before the first request"
+            elif v is not None and v != 0:
+                ok = f.name == "find_available_user" and bool(ds) and all(c03.form_free(d, xk) for d in ds)
+                why = "set by the allocator under the take-over condition" if ok else "slot marked in use outside the allocator's take-over condition"
+            else:
+                ok = bool(ds) and all(c03.form_auth(d, xk) for d in ds)
+                why = "cleared for a session whose authenticated guard passed" if ok else \
+                    "slot freed (or flag written with a non-constant) without the session's authenticated guard: a live session's slot becomes reusable"
+            chk.site(r8, f, ir.loc(node), "write users[%s].active = %s" % (xk, pp(sk(val))[:20] if val is not None else "?"), ok, why)
+    if nw < 2:
+        raise AnalysisBroken("C04.R8: writers of users[].active not found")
 
     # ------------------------------------------------------------------ R3
     r3 = chk.rule("C04.R3", "tunnel-address lookup",
